@@ -420,7 +420,7 @@ func (e *EDNS0_SUBNET) copy() EDNS0 {
 		e.Family,
 		e.SourceNetmask,
 		e.SourceScope,
-		e.Address,
+		cloneSlice(e.Address),
 	}
 }
 
@@ -579,7 +579,7 @@ func (e *EDNS0_DAU) String() string {
 	}
 	return s
 }
-func (e *EDNS0_DAU) copy() EDNS0 { return &EDNS0_DAU{e.Code, e.AlgCode} }
+func (e *EDNS0_DAU) copy() EDNS0 { return &EDNS0_DAU{e.Code, cloneSlice(e.AlgCode)} }
 
 // EDNS0_DHU implements the EDNS0 "DS Hash Understood" option. See RFC 6975.
 type EDNS0_DHU struct {
@@ -603,7 +603,7 @@ func (e *EDNS0_DHU) String() string {
 	}
 	return s
 }
-func (e *EDNS0_DHU) copy() EDNS0 { return &EDNS0_DHU{e.Code, e.AlgCode} }
+func (e *EDNS0_DHU) copy() EDNS0 { return &EDNS0_DHU{e.Code, cloneSlice(e.AlgCode)} }
 
 // EDNS0_N3U implements the EDNS0 "NSEC3 Hash Understood" option. See RFC 6975.
 type EDNS0_N3U struct {
@@ -628,7 +628,7 @@ func (e *EDNS0_N3U) String() string {
 	}
 	return s
 }
-func (e *EDNS0_N3U) copy() EDNS0 { return &EDNS0_N3U{e.Code, e.AlgCode} }
+func (e *EDNS0_N3U) copy() EDNS0 { return &EDNS0_N3U{e.Code, cloneSlice(e.AlgCode)} }
 
 // EDNS0_EXPIRE implements the EDNS0 option as described in RFC 7314.
 type EDNS0_EXPIRE struct {
